@@ -100,6 +100,24 @@ impl StorageEngine {
 //@@ body
 //@@ end
 
+// XREAD, one (key, id) pair (the body of the engine's per-key loop): the stream under THIS key is asked for the entries after THIS id with the
+// command's COUNT; a non-empty answer is appended under the key's name, an empty one (or a missing key) adds nothing; another type refuses
+//@@ unit xread_step loopbody src/storage/engine.rs StorageEngine::xread "for (key, after_id) in keys_and_ids"
+//@@   rewrite R2
+//@@   tail Ok(Vec::new())
+    fn xread_step(&self, shard_guard: &mut DatabaseShard, key: &[u8], after_id: StreamId, count: Option<usize>, results: &mut Vec<(Vec<u8>, Vec<StreamEntry>)>) -> (r: Result<Vec<(Vec<u8>, Vec<StreamEntry>)>>)
+        ensures
+            unchanged(eff(*old(shard_guard), key_of(key@)), sv(*final(shard_guard))),
+            holds_non_stream(eff(*old(shard_guard), key_of(key@)), key_of(key@)) ==> r is Err,
+            !eff(*old(shard_guard), key_of(key@)).data.contains_key(key_of(key@)) ==> r is Ok && final(results)@ == old(results)@,
+            stream_at(eff(*old(shard_guard), key_of(key@)), key_of(key@)) matches Some(st) ==> r is Ok && ({
+                let e = spec_stream_range_after(st, after_id, count);
+                if e.len() > 0 { final(results)@.len() == old(results)@.len() + 1 && final(results)@.drop_last() == old(results)@ && final(results)@.last().0@ == key@ && final(results)@.last().1@ == e }
+                else { final(results)@ == old(results)@ }
+            }),
+//@@ body
+//@@ end
+
 //@@ unit xtrim fn src/storage/engine.rs StorageEngine::xtrim
 //@@   params drop "db: DatabaseIndex" add "shard_guard: &mut DatabaseShard"
 //@@   rewrite R2
